@@ -30,7 +30,7 @@ for r in rows:
     out.append('| ' + ' | '.join(r) + ' |')
 caught = sum(1 for r in rows if r[4].startswith('caught'))
 out.append('')
-out.append('%d seeded changes kept, %d caught by the quick tier of the property\'s own check (after strengthening where noted).' % (len(rows), caught))
+out.append('%d seeded changes kept, %d caught by the quick tier of the property\'s own check; %d of them were missed at first and are caught after strengthening.' % (len(rows), caught, sum(1 for r in rows if r[5])))
 txt = '\n'.join(out)
 p = os.path.join(HERE, 'DESIGN.md')
 s = open(p).read()
@@ -39,4 +39,4 @@ if a not in s:
     s += '\n' + a + '\n' + b + '\n'
 s = s[:s.index(a) + len(a)] + '\n' + txt + '\n' + s[s.index(b):]
 open(p, 'w').write(s)
-print(len(rows), 'rows', caught, 'caught')
+print(len(rows), 'rows', caught, 'caught', sum(1 for r in rows if r[5]), 'missed at first')
